@@ -6,6 +6,7 @@ import (
 	"os"
 	"sort"
 	"strings"
+	"time"
 
 	"github.com/LemoFoundationLtd/lemochain-core/chain"
 	"github.com/LemoFoundationLtd/lemochain-core/chain/account"
@@ -81,10 +82,34 @@ func (n *Node) Close() {
 	n.DB.Close()
 }
 
-// Destroy closes the node and removes its directory.
+// Quiesce waits until the store's asynchronous writer has drained (no pending records), so that
+// the data directory is in the state a clean shutdown is meant to leave. It is a wait for a
+// deterministic condition, not an oracle; it gives up (false) after a generous real-time cap.
+func (n *Node) Quiesce() bool {
+	for i := 0; i < 20000; i++ {
+		if store.VerifPendingWrites(n.DB) == 0 {
+			return true
+		}
+		time.Sleep(500 * time.Microsecond)
+	}
+	return false
+}
+
+// Destroy closes the node and removes its directory. It first waits for the store's background
+// writer to drain: Close does not stop it, and it panics when its files disappear under it.
 func (n *Node) Destroy() {
+	n.Quiesce()
 	n.Close()
 	os.RemoveAll(n.Dir)
+}
+
+// InsertQuiet inserts a block and waits for the store's background writer to drain, so that the
+// next store write does not overlap with it (the store's own write/write races are the subject of
+// C08 and C19, not of the harnesses that use this helper).
+func (n *Node) InsertQuiet(b *types.Block) error {
+	err := n.BC.InsertBlock(b)
+	n.Quiesce()
+	return err
 }
 
 type parentLoader struct{ db *store.ChainDatabase }
@@ -162,6 +187,9 @@ type BlockSpec struct {
 	NoSave bool // do not store the block in the factory database
 	// GasLimit overrides the miner's default choice when non-zero; MinerAddr overrides the address
 	// written into the header (default: the key's deputy address)
+	// Inspect is called with the assembler's account manager right after the block was sealed
+	// (before anything is saved): the miner's own view of the post-state
+	Inspect     func(am *account.Manager, b *types.Block)
 	GasLimit    uint64
 	SetGasLimit bool // use GasLimit even when it is zero
 	MinerAddr   *common.Address
@@ -195,6 +223,9 @@ func (f *Factory) Make(spec BlockSpec) (block *types.Block, invalid types.Transa
 	block, invalid, err = asm.MineBlock(header, txs, HugeTimeout)
 	if err != nil {
 		return nil, invalid, err
+	}
+	if spec.Inspect != nil {
+		spec.Inspect(am, block)
 	}
 	if !spec.NoSave {
 		h := block.Hash()
